@@ -36,8 +36,8 @@ MANIFEST_ENTRY = {
         "codecs are proved under C07/C19. Flask routing, DB lookup, MP4 re-encoding not modelled."),
     "technique": "Lean 4 proof (slice of the global sequence + floor-division/leeway inequalities via linarith) + model/implementation correspondence",
 }
-PROP_FILES = ["DashLive/Props/C01.lean", "DashLive/Props/GenTie.lean"]
-LEAN_TARGETS = ["DashLive.Props.C01", "DashLive.Props.GenTie"]
+PROP_FILES = ["DashLive/Props/C01.lean", "DashLive/Props/GenTie.lean", "DashLive/Props/GenTieTimeline.lean"]
+LEAN_TARGETS = ["DashLive.Props.C01", "DashLive.Props.GenTie", "DashLive.Props.GenTieTimeline"]
 
 
 def _gen_options():
@@ -50,7 +50,9 @@ def _gen_arith():
     """Gen/Arith.lean (incl. the `while` loop of get_segment_index) is translated from /repo's source
     text; Props/GenTie.lean proves it equal to the model (`tie_getSegmentIndex`)"""
     import gen_arith
+    import gen_timeline
     gen_arith.main()
+    gen_timeline.main()
 
 
 GENERATORS = [_gen_options, _gen_arith]
